@@ -68,6 +68,40 @@ func runHistoryChild(kind string) {
 	fmt.Fprintf(w, "end altered-earlier-results=%d\n", altered)
 }
 
+// childAnswers runs a history in a fresh process and returns one answer per op (nil on failure).
+func childAnswers(ops []string) []string {
+	self, _ := os.Executable()
+	cmd := exec.Command(self, "-child", "hist")
+	cmd.Stdin = strings.NewReader(strings.Join(ops, "\n") + "\n")
+	out, err := cmd.Output()
+	lines := strings.Split(strings.TrimRight(string(out), "\n"), "\n")
+	if err != nil || len(lines) != len(ops)+1 {
+		return nil
+	}
+	return lines[:len(ops)]
+}
+
+// shrinkHistory: the last op of `ops` answers `bad` instead of its history-free answer; drop
+// earlier ops one at a time (to a fixed point) while that stays so.
+func shrinkHistory(ops []string, bad string) []string {
+	cur := append([]string(nil), ops...)
+	for changed, rounds := true, 0; changed && rounds < 4; rounds++ {
+		changed = false
+		for j := 0; j < len(cur)-1; {
+			cand := append(append([]string(nil), cur[:j]...), cur[j+1:]...)
+			if a := childAnswers(cand); a != nil && a[len(a)-1] == bad {
+				cur, changed = cand, true
+			} else {
+				j++
+			}
+			if len(cur) > 60 && j > 40 {
+				break
+			}
+		}
+	}
+	return cur
+}
+
 func (c *Ctx) runHistory(class string, ops []string) {
 	self, _ := os.Executable()
 	cmd := exec.Command(self, "-child", "hist")
@@ -106,8 +140,10 @@ func (c *Ctx) runHistory(class string, ops []string) {
 			same = sameChk
 			if specAns == "reject" {
 				if impl == "ok" {
-					c.rep.violate(Violation{Kind: "impl≠spec", Class: class, Op: fmt.Sprintf("history (%d ops) then op #%d: %s  || history: %s", len(ops), i, op, hist), Impl: impl, Spec: specAns,
+					min := shrinkHistory(ops[:i+1], impl)
+					c.rep.violate(Violation{Kind: "impl≠spec", Class: class, Op: fmt.Sprintf("in a fresh process, after %d earlier call(s) [shrunk from %d]: %s  ||  then: %s", len(min)-1, i, strings.Join(min[:len(min)-1], " ; "), op), Impl: impl, Spec: specAns,
 						Detail: "unsupported language accepted after this history"})
+					return
 				}
 				continue
 			}
@@ -126,8 +162,10 @@ func (c *Ctx) runHistory(class string, ops []string) {
 			}
 		}
 		if specAns != "-" && !same(impl, specAns) {
-			c.rep.violate(Violation{Kind: "impl≠spec", Class: class, Op: fmt.Sprintf("history (%d ops) then op #%d: %s  || history: %s", len(ops), i, op, hist), Impl: impl, Model: m, Spec: specAns,
+			min := shrinkHistory(ops[:i+1], impl)
+			c.rep.violate(Violation{Kind: "impl≠spec", Class: class, Op: fmt.Sprintf("in a fresh process, after %d earlier call(s) [shrunk from %d]: %s  ||  then: %s", len(min)-1, i, strings.Join(min[:len(min)-1], " ; "), op), Impl: impl, Model: m, Spec: specAns,
 				Detail: "the result differs from the history-free reference"})
+			return
 		} else if strings.Fields(op)[0] != "newm" && !same(impl, m) && !sameChk(impl, m) {
 			c.rep.stale(Violation{Kind: "impl≠model", Class: class, Op: op, Impl: impl, Model: m, Spec: s})
 		}
